@@ -63,8 +63,8 @@ Print Assumptions c02_no_shared_synchronisation.
    The server's per-session handler and the piping of one logical connection, with every resource and its owner explicit (Mux/Handler.v:
    streams, target connections, the accept loop, one handler goroutine per stream, two copy loops per piped connection, the report
    channels; every goroutine steps through the statements of the Go code under an arbitrary schedule and an arbitrary environment).
-   `shape_ok` admits exactly the code as it is (every switch read from the source on every run, see c02_handler_source_facts), with three
-   switches left open because the statements do not depend on them. *)
+   `shape_ok_server` admits exactly the server's code as it is (every switch read from the source on every run, see c02_handler_source_facts),
+   with three switches left open because the statements do not depend on them; the client's switches do not enter the server's machine. *)
 From SA Require Import Mux.Handler Mux.Handler_proofs.
 From SA Require Gen.HandlerShape.
 
@@ -82,33 +82,33 @@ Theorem c02_handler_fact_no_lock_around_dial : Gen.HandlerShape.mux_handler_lock
 Proof. reflexivity. Qed.
 Theorem c02_handler_fact_accept_loop_on_its_own_goroutine : Gen.HandlerShape.handle_connection_starts_accept_loop = true.
 Proof. reflexivity. Qed.
-Theorem c02_handler_source_facts : shape_ok code_shape = true.
+Theorem c02_handler_source_facts : shape_ok_server code_shape = true.
 Proof. reflexivity. Qed.
 
 (* FRAME. In every reachable state, an event of logical connection i - a step of its handler goroutine or of one of its copy loops, or
    something its own peers do - leaves the record of every other connection (its stream, its target connection, its goroutines' program
    counters, its report channels) and the session's own state exactly as they were, and every close it makes acts on i's stream or i's
    target connection: whatever i's outcome is (refused, dial failed late, peer dropped, pipe error). *)
-Theorem c02_handler_frame : forall sh evs e i, shape_ok sh = true -> ev_conn e = Some i ->
+Theorem c02_handler_frame : forall sh evs e i, shape_ok_server sh = true -> ev_conn e = Some i ->
   let s := run sh evs in
   (forall j, j <> i -> nth_error (g_conns (step sh s e)) j = nth_error (g_conns s) j) /\ same_globals s (step sh s e) /\
   exists rs, Forall (own_res i) rs /\ g_log (step sh s e) = g_log s ++ map (fun r => (AHand i, r)) rs.
 Proof. exact frame_run. Qed.
 (* ... and over a whole history: every close ever made was made by the owner of what it closed (a handler: its own stream or target
    connection; the accept loop: the session). *)
-Theorem c02_handler_closes_are_own : forall sh evs, shape_ok sh = true -> forall x, In x (g_log (run sh evs)) -> fst x = owner (snd x).
+Theorem c02_handler_closes_are_own : forall sh evs, shape_ok_server sh = true -> forall x, In x (g_log (run sh evs)) -> fst x = owner (snd x).
 Proof. exact closes_are_own_run. Qed.
 
 (* INDEPENDENCE. What connection j can do next (which of its goroutines is enabled) and what becomes of it is a function of j's own record
    and of the session's fate - of nothing that belongs to another connection: two reachable states that agree on that view of j agree on
    every event of j. (A session-wide lock or semaphore in the model makes this false: c02_handler_dial_lock_refuted,
    c02_handler_slot_leak_refuted.) *)
-Theorem c02_handler_independent : forall sh evs evs' e j, shape_ok sh = true -> ev_conn e = Some j ->
+Theorem c02_handler_independent : forall sh evs evs' e j, shape_ok_server sh = true -> ev_conn e = Some j ->
   let s := run sh evs in let s' := run sh evs' in
   view s j = view s' j -> view (step sh s e) j = view (step sh s' e) j /\ enabled sh s e = enabled sh s' e.
 Proof. exact independent_run. Qed.
 (* ... and the accept loop takes up the oldest waiting stream with its next step, whatever state the other connections are in. *)
-Theorem c02_handler_accept_serves : forall sh evs b j, shape_ok sh = true ->
+Theorem c02_handler_accept_serves : forall sh evs b j, shape_ok_server sh = true ->
   let s := run sh evs in
   g_acc s = AAccept -> g_dead s = Alive -> g_closed s = false -> first_pending (g_conns s) 0 = Some j ->
   exists c, nth_error (g_conns s) j = Some c /\ nth_error (g_conns (step sh s (SAccept b))) j = Some (set_h c HPeek) /\
